@@ -25,45 +25,120 @@ Proof.
   destruct (block_md o tb x) as [s tb1]. now rewrite IH.
 Qed.
 
-Fixpoint items_md (o : opts) (ordered sparse : bool) (n : nat) (tb : list string) (items : list (list gblock))
-  {struct items} : string * list string :=
-  match items with
-  | [] => ("", tb)
-  | it :: r =>
-      let '(s, tb1) := blocks_md o (if sparse then LFS else "") tb it in
-      let s := if ordered then left_pad_and_prefix_num s n else left_pad_and_prefix s in
-      match r with
-      | [] => (s, tb1)
-      | _ => let '(s', tb2) := items_md o ordered sparse (S n) tb1 r in
-             (s +++ (if sparse then LFS else "") +++ s', tb2)
+(* one item: an empty lead line is not written, a rule right after the marker is written in asterisks *)
+Definition item_md (o : opts) (sep : string) (tb : list string) (it : list gblock) : string * list string :=
+  match it with
+  | (GPlain [] | GPara []) :: GRule :: rest =>
+      match rest with
+      | [] => (srepeat "*" 72 +++ LFS, tb)
+      | _ => let '(s', tb') := blocks_md o sep tb rest in (srepeat "*" 72 +++ LFS +++ sep +++ s', tb')
       end
+  | (GPlain [] | GPara []) :: rest => blocks_md o sep tb rest
+  | _ => blocks_md o sep tb it
   end.
+
+Fixpoint items_md (o : opts) (ordered sparse : bool) (n : nat) (tb : list string) (items : list (list gblock))
+  {struct items} : list string * list string :=
+  match items with
+  | [] => ([], tb)
+  | it :: r =>
+      let '(s, tb1) := item_md o (if sparse then LFS else "") tb it in
+      if sempty s then items_md o ordered sparse n tb1 r
+      else
+        let '(ss, tb2) := items_md o ordered sparse (S n) tb1 r in
+        ((if ordered then left_pad_and_prefix_num s n else left_pad_and_prefix s) :: ss, tb2)
+  end.
+
+Lemma md_item_eq o sep tb it :
+  match it with
+  | (GPlain [] | GPara []) :: GRule :: rest =>
+      match rest with
+      | [] => (srepeat "*" 72 +++ LFS, tb)
+      | _ => let '(s', tb') := (fix go (sep : string) (tb : list string) (l : list gblock) {struct l} : string * list string :=
+                 match l with
+                 | [] => ("", tb)
+                 | [x] => block_md o tb x
+                 | x :: r => let '(s, tb1) := block_md o tb x in
+                             let '(s', tb2) := go sep tb1 r in (s +++ sep +++ s', tb2)
+                 end) sep tb rest in (srepeat "*" 72 +++ LFS +++ sep +++ s', tb')
+      end
+  | (GPlain [] | GPara []) :: rest => (fix go (sep : string) (tb : list string) (l : list gblock) {struct l} : string * list string :=
+                 match l with
+                 | [] => ("", tb)
+                 | [x] => block_md o tb x
+                 | x :: r => let '(s, tb1) := block_md o tb x in
+                             let '(s', tb2) := go sep tb1 r in (s +++ sep +++ s', tb2)
+                 end) sep tb rest
+  | _ => (fix go (sep : string) (tb : list string) (l : list gblock) {struct l} : string * list string :=
+                 match l with
+                 | [] => ("", tb)
+                 | [x] => block_md o tb x
+                 | x :: r => let '(s, tb1) := block_md o tb x in
+                             let '(s', tb2) := go sep tb1 r in (s +++ sep +++ s', tb2)
+                 end) sep tb it
+  end = item_md o sep tb it.
+Proof.
+  pose (fin := fun l => md_go_eq o sep l tb).
+  Ltac fin_tac f := lazymatch goal with |- _ = blocks_md _ _ _ ?l => exact (f l) end.
+  unfold item_md. destruct it as [|h rest]; [reflexivity|].
+  destruct h as [l|l| | | | | | |]; try fin_tac fin;
+    (destruct l; [|fin_tac fin]; destruct rest as [|x rest']; [reflexivity|];
+     destruct x; try fin_tac fin; destruct rest' as [|y r']; [reflexivity|]; now rewrite <- (fin (y :: r'))).
+Qed.
 
 Lemma md_goi_eq o ordered sparse items : forall n tb,
   (fix goi (ordered sparse : bool) (n : nat) (tb : list string) (items : list (list gblock)) {struct items}
-      : string * list string :=
+      : list string * list string :=
     match items with
-    | [] => ("", tb)
+    | [] => ([], tb)
     | it :: r =>
+        let sep := if sparse then LFS else "" in
         let '(s, tb1) :=
-          (fix go (sep : string) (tb : list string) (l : list gblock) {struct l} : string * list string :=
-             match l with
-             | [] => ("", tb)
-             | [x] => block_md o tb x
-             | x :: r => let '(s, tb1) := block_md o tb x in
-                         let '(s', tb2) := go sep tb1 r in (s +++ sep +++ s', tb2)
-             end) (if sparse then LFS else "") tb it in
-        let s := if ordered then left_pad_and_prefix_num s n else left_pad_and_prefix s in
-        match r with
-        | [] => (s, tb1)
-        | _ => let '(s', tb2) := goi ordered sparse (S n) tb1 r in
-               (s +++ (if sparse then LFS else "") +++ s', tb2)
-        end
+          match it with
+          | (GPlain [] | GPara []) :: GRule :: rest =>
+              match rest with
+              | [] => (srepeat "*" 72 +++ LFS, tb)
+              | _ => let '(s', tb') :=
+                       (fix go (sep : string) (tb : list string) (l : list gblock) {struct l} : string * list string :=
+                          match l with
+                          | [] => ("", tb)
+                          | [x] => block_md o tb x
+                          | x :: r => let '(s, tb1) := block_md o tb x in
+                                      let '(s', tb2) := go sep tb1 r in (s +++ sep +++ s', tb2)
+                          end) sep tb rest in (srepeat "*" 72 +++ LFS +++ sep +++ s', tb')
+              end
+          | (GPlain [] | GPara []) :: rest =>
+              (fix go (sep : string) (tb : list string) (l : list gblock) {struct l} : string * list string :=
+                 match l with
+                 | [] => ("", tb)
+                 | [x] => block_md o tb x
+                 | x :: r => let '(s, tb1) := block_md o tb x in
+                             let '(s', tb2) := go sep tb1 r in (s +++ sep +++ s', tb2)
+                 end) sep tb rest
+          | _ =>
+              (fix go (sep : string) (tb : list string) (l : list gblock) {struct l} : string * list string :=
+                 match l with
+                 | [] => ("", tb)
+                 | [x] => block_md o tb x
+                 | x :: r => let '(s, tb1) := block_md o tb x in
+                             let '(s', tb2) := go sep tb1 r in (s +++ sep +++ s', tb2)
+                 end) sep tb it
+          end in
+        if sempty s then goi ordered sparse n tb1 r
+        else
+          let '(ss, tb2) := goi ordered sparse (S n) tb1 r in
+          ((if ordered then left_pad_and_prefix_num s n else left_pad_and_prefix s) :: ss, tb2)
     end) ordered sparse n tb items = items_md o ordered sparse n tb items.
 Proof.
   induction items as [|it r IH]; intros n tb; [reflexivity|].
-  rewrite md_go_eq. cbn [items_md]. destruct (blocks_md o (if sparse then LFS else "") tb it) as [s tb1].
-  destruct r as [|it' r']; [reflexivity|]. now rewrite IH.
+  lazy beta match fix. lazy zeta. rewrite md_item_eq.
+  change (items_md o ordered sparse n tb (it :: r)) with
+    (let '(s, tb1) := item_md o (if sparse then LFS else "") tb it in
+     if sempty s then items_md o ordered sparse n tb1 r
+     else let '(ss, tb2) := items_md o ordered sparse (S n) tb1 r in
+          ((if ordered then left_pad_and_prefix_num s n else left_pad_and_prefix s) :: ss, tb2)).
+  destruct (item_md o (if sparse then LFS else "") tb it) as [s tb1].
+  destruct (sempty s); now rewrite IH.
 Qed.
 
 Lemma md_quote o tb bs :
@@ -71,9 +146,13 @@ Lemma md_quote o tb bs :
   let '(s, tb') := blocks_md o LFS tb bs in
   (join LFS (map (fun line => trim ("> " +++ line)) (lines s)) +++ LFS, tb').
 Proof. rewrite <- md_go_eq. reflexivity. Qed.
-Lemma md_olist o tb its : block_md o tb (GOList its) = items_md o true (is_sparse its) 1 tb its.
+Lemma md_olist o tb its :
+  block_md o tb (GOList its) =
+  let '(ss, tb') := items_md o true (is_sparse its) 1 tb its in (join (if is_sparse its then LFS else "") ss, tb').
 Proof. rewrite <- md_goi_eq. reflexivity. Qed.
-Lemma md_blist o tb its : block_md o tb (GBList its) = items_md o false (is_sparse its) 1 tb its.
+Lemma md_blist o tb its :
+  block_md o tb (GBList its) =
+  let '(ss, tb') := items_md o false (is_sparse its) 1 tb its in (join (if is_sparse its then LFS else "") ss, tb').
 Proof. rewrite <- md_goi_eq. reflexivity. Qed.
 
 Section TextLevel.
@@ -83,6 +162,11 @@ Section TextLevel.
 
   Definition line_md_stable (l : list inline) : bool :=
     String.eqb (inlines_md o (line0 ctx dir (rr_inlines o l))) (inlines_md o l).
+
+  (* an item's line without text is not written at all (the item starts with its next block): empty stays
+     empty, not empty stays not empty *)
+  Definition lead_kind_stable (l : list inline) : bool :=
+    Bool.eqb (is_nil (line0 ctx dir (rr_inlines o l))) (is_nil l).
 
   (* every line is written the same again (as a string), every code block too *)
   Fixpoint md_settled (b : gblock) {struct b} : bool :=
@@ -94,14 +178,15 @@ Section TextLevel.
     | GOList its | GBList its =>
         forallb (fun it => match it with
                            | [] => true
-                           | h :: rest => is_paragraph h && line_md_stable (gline h) && forallb md_settled rest
+                           | h :: rest => is_paragraph h && line_md_stable (gline h) && lead_kind_stable (gline h) &&
+                                          forallb md_settled rest
                            end) its
     | GRule | GTable _ _ _ => true
     end.
   Definition item_md_settled (it : list gblock) : bool :=
     match it with
     | [] => true
-    | h :: rest => is_paragraph h && line_md_stable (gline h) && forallb md_settled rest
+    | h :: rest => is_paragraph h && line_md_stable (gline h) && lead_kind_stable (gline h) && forallb md_settled rest
     end.
 
   Notation again := (gagain ctx dir o).
@@ -128,17 +213,44 @@ Section TextLevel.
       destruct (gflag o rest); cbn [block_md]; now rewrite Hl.
   Qed.
 
+  Lemma again_rule b : again b = GRule -> b = GRule.
+  Proof. destruct b; cbn [gagain]; try discriminate; reflexivity. Qed.
+
   Lemma md_item it : Forall MB it -> item_md_settled it = true ->
-    forall sep tb, blocks_md o sep tb (item_again ctx dir o it) = blocks_md o sep tb it.
+    forall sep tb, item_md o sep tb (item_again ctx dir o it) = item_md o sep tb it.
   Proof.
     intros HF Hs sep tb. destruct it as [|h rest]; [reflexivity|].
     inversion HF as [|? ? _ HFr]; subst. cbn [item_md_settled] in Hs.
-    apply andb_prop in Hs as [Hs Hr]. apply andb_prop in Hs as [Hp Hl].
-    cbn [item_again]. destruct rest as [|y r]; [cbn [map blocks_md]; now apply lead_md|].
-    change (map again (y :: r)) with (again y :: map again r).
-    cbn [blocks_md]. rewrite (lead_md h (y :: r) tb Hp Hl). destruct (block_md o tb h) as [s tb1].
-    pose proof (md_seq (y :: r) HFr Hr sep tb1) as E.
-    change (map again (y :: r)) with (again y :: map again r) in E. cbn [blocks_md] in E. rewrite E. reflexivity.
+    apply andb_prop in Hs as [Hs Hr]. apply andb_prop in Hs as [Hs Hn]. apply andb_prop in Hs as [Hp Hl].
+    unfold lead_kind_stable in Hn. apply Bool.eqb_prop in Hn.
+    assert (Hold : blocks_md o sep tb (item_again ctx dir o (h :: rest)) = blocks_md o sep tb (h :: rest)).
+    { cbn [item_again]. destruct rest as [|y r]; [cbn [map blocks_md]; now apply lead_md|].
+      change (map again (y :: r)) with (again y :: map again r).
+      cbn [blocks_md]. rewrite (lead_md h (y :: r) tb Hp Hl). destruct (block_md o tb h) as [s tb1].
+      pose proof (md_seq (y :: r) HFr Hr sep tb1) as E.
+      change (map again (y :: r)) with (again y :: map again r) in E. cbn [blocks_md] in E. rewrite E. reflexivity. }
+    cbn [item_again] in *. unfold lead_again in *.
+    destruct (line0 ctx dir (rr_inlines o (gline h))) as [|i' l'] eqn:EL; destruct (gline h) as [|i l] eqn:El;
+      try discriminate Hn.
+    - (* no text before, no text after: the item is written from its second block on *)
+      assert (Eh : item_md o sep tb (h :: rest) = item_md o sep tb (GPara [] :: rest))
+        by (destruct h; try discriminate Hp; cbn [gline] in El; subst; reflexivity).
+      rewrite Eh.
+      assert (Eg : forall X, item_md o sep tb ((if gflag o rest then GPara [] else GPlain []) :: X)
+                             = item_md o sep tb (GPara [] :: X)) by (intros X; destruct (gflag o rest); reflexivity).
+      rewrite Eg. clear Eh Eg Hold.
+      destruct rest as [|x r]; [reflexivity|].
+      pose proof (md_seq (x :: r) HFr Hr sep tb) as E.
+      destruct x; try exact E.
+      (* a rule right after the marker *)
+      cbn [map gagain item_md]. destruct r as [|y r']; [reflexivity|].
+      inversion HFr as [|? ? _ HFr']; subst. cbn [forallb] in Hr. apply andb_prop in Hr as [_ Hr'].
+      cbn [map]. change (again y :: map again r') with (map again (y :: r')).
+      now rewrite (md_seq (y :: r') HFr' Hr' sep tb).
+    - (* text before, text after *)
+      assert (Eh : item_md o sep tb (h :: rest) = blocks_md o sep tb (h :: rest))
+        by (destruct h; try discriminate Hp; cbn [gline] in El; subst; reflexivity).
+      rewrite Eh, <- Hold. destruct (gflag o rest); reflexivity.
   Qed.
 
   Lemma again_paragraph b : is_paragraph (again b) = is_paragraph b.
@@ -154,7 +266,7 @@ Section TextLevel.
     length (filter is_paragraph (item_again ctx dir o it)) = length (filter is_paragraph it).
   Proof.
     destruct it as [|h rest]; [reflexivity|]. cbn [item_md_settled]. intros Hs.
-    apply andb_prop in Hs as [Hs _]. apply andb_prop in Hs as [Hp _].
+    apply andb_prop in Hs as [Hs _]. apply andb_prop in Hs as [Hs _]. apply andb_prop in Hs as [Hp _].
     cbn [item_again filter]. rewrite Hp.
     assert (Hl : is_paragraph (lead_again ctx dir o h rest) = true)
       by (unfold lead_again; destruct (gflag o rest); reflexivity).
@@ -175,11 +287,8 @@ Section TextLevel.
     induction 1 as [|it r Hit _ IH]; intros Hs ordered sparse n tb; [reflexivity|].
     cbn [forallb] in Hs. apply andb_prop in Hs as [Hs1 Hs2].
     cbn [map items_md]. rewrite (md_item it Hit Hs1).
-    destruct (blocks_md o (if sparse then LFS else "") tb it) as [s tb1].
-    destruct r as [|it' r']; [reflexivity|].
-    specialize (IH Hs2 ordered sparse (S n) tb1).
-    change (map (item_again ctx dir o) (it' :: r')) with (item_again ctx dir o it' :: map (item_again ctx dir o) r') in *.
-    rewrite IH. reflexivity.
+    destruct (item_md o (if sparse then LFS else "") tb it) as [s tb1].
+    destruct (sempty s); now rewrite (IH Hs2).
   Qed.
 
   Lemma md_block : forall b, MB b.
